@@ -388,7 +388,8 @@ class Sym:
         if stop and stop in self.assigned([s]):
             return self.finish(env)
         if isinstance(s, ast.Expr):     # docstring, logging call, ...
-            if isinstance(s.value, ast.Constant) or isinstance(s.value, ast.Call) and (dotted(s.value.func) or "").startswith(("logger.", "logging.", "warnings.", "print")):
+            if isinstance(s.value, ast.Constant) or isinstance(s.value, ast.Call) and ((dotted(s.value.func) or "").startswith(("logger.", "logging.", "warnings.", "print"))
+                                                                                       or (dotted(s.value.func) or "") in self.spec.get("skip_calls", ())):
                 self.plan["skipped"].add(id(s))
                 return self.run(rest, env)
             raise Untranslatable("expression statement")
@@ -536,7 +537,7 @@ class Sym:
         for i, s in enumerate(stmts):
             if isinstance(s, ast.Pass) or isinstance(s, ast.Expr):
                 if isinstance(s, ast.Expr) and not (isinstance(s.value, ast.Constant) or isinstance(s.value, ast.Call)
-                                                    and (dotted(s.value.func) or "").startswith(("logger.", "logging.", "warnings.", "print"))):
+                                                    and ((dotted(s.value.func) or "").startswith(("logger.", "logging.", "warnings.", "print")) or (dotted(s.value.func) or "") in self.spec.get("skip_calls", ()))):
                     raise Untranslatable("expression statement")
                 self.plan["skipped"].add(id(s))
                 continue
@@ -720,6 +721,23 @@ def translate(repo, spec):
                     raise Untranslatable(f"arguments {names}")
             stmts = list(fn.body)
             lets = []
+            if "enter_if" in spec:
+                # enter the branch of a top-level if/elif chain whose test reads `enter_if` (the statements before the chain are a prologue)
+                found = None
+                for i, s in enumerate(stmts):
+                    node = s
+                    while isinstance(node, ast.If):
+                        if ast.unparse(node.test) == spec["enter_if"]:
+                            found = (i, node)
+                            break
+                        node = node.orelse[0] if len(node.orelse) == 1 else None
+                    if found:
+                        break
+                if not found:
+                    raise Untranslatable("no branch with the test " + spec["enter_if"])
+                env, l2 = sym.prologue(stmts[:found[0]], env)
+                lets += l2
+                stmts = list(found[1].body)
             for loopvar in spec.get("descend", []):
                 for i, s in enumerate(stmts):
                     if isinstance(s, ast.For):
@@ -894,7 +912,14 @@ TARGETS = [
 ]
 
 
-GROUPS = ["Combine", "Azimuth", "Orient", "Windows", "Stats", "Sesame", "Fdwra", "Psd", "Nyquist", "Spatial", "Split", "Readers", "Peaks", "Trim"]
+TARGETS.append(
+    # reader of azimuthal results: where a new azimuth block starts (the label changes, or the curve numbering restarts at one -- repair of C12-d)
+    dict(group="ObjectIO", name="reader_block_start", file="hvsrpy/object_io.py", func="read_hvsr_object_from_file", enter_if="meta['processing_method'] == 'azimuthal'",
+         descend=["header"], start_after="curr_azimuth", skip_calls=("azimuths.append", "hvsrs.append"), abstract={"int(curr_curve)": ("curve_number", "int")},
+         params=[("curr_azimuth", "str"), ("prev_azimuth", "str"), ("curve_number", "int"), ("idx", "int"), ("start_idx", "int")],
+         out=["start_idx", "prev_azimuth"], out_types=["int", "str"]))
+
+GROUPS = ["Combine", "Azimuth", "Orient", "Windows", "Stats", "Sesame", "Fdwra", "Psd", "Nyquist", "Spatial", "Split", "Readers", "Peaks", "Trim", "ObjectIO"]
 
 
 def emit(repo):
